@@ -14,6 +14,8 @@ import props.c05 as c05
 
 ID = 'C17'
 LEVEL = 'proof'
+# the monotonicity of the rank scorers GENERATED from rankscore.py is an obligation while the translator accepts the source
+GEN_TIES = {'Rankscore': 'Props/GenTie_Rankscore_mono.v'}
 TIE = {'HighestAverages.evaluate': 'correspondence (stream ha-tie, model shared with C01)',
        'component/divisor.py': 'translator (GenTie_Divisor.v, obligation of C01) + strictness lemmas Props/C17.v C17_builtin_strict',
        'component/rankscore.py': 'translator (GenTie_Rankscore.v, obligation of C13: all six scorers of Model/Convert.v rank_scores)',
